@@ -22,6 +22,47 @@ def stale_alt_vars(rec, run, rv):
 PREDICATES = {}
 
 
+def machine(rep, work, vh, prelude, r, quick, cases):
+    """PStack.tla model-checked against immutable lists (+ its negative control), bound to stack.go by replayed
+    operation sequences; VM.tla stepped along the recorded traces of the real interpreter with refinement to JqSem."""
+    import vmfam
+    res = vc.tlc(work.dir, "PStackMC.tla", "PStackMC.cfg" if quick else "PStackMC_deep.cfg", workers=vc.NCPU, timeout=1500)
+    rep.add_tlc(res)
+    if not res.ok():
+        raise vc.ToolError("PStackMC failed:\n" + vc.tlc_error_text(res))
+    rep.cov["pstack_mc_states"] = res.distinct
+    neg = vc.tlc(work.dir, "PStackMC.tla", "PStackMC_bug.cfg", workers=4, timeout=300)
+    if "SavedIntact is violated" not in neg.out:
+        raise vc.ToolError("negative control: PStackMC with BugIgnoreLimit must violate SavedIntact")
+    ops = [{"id": i, "kind": r.choice(["stack", "scope"]),
+            "ops": [{"op": r.choice(["push", "push", "pop", "save", "restore"]), "arg": r.randrange(5)} for _ in range(r.randrange(5, 80))]}
+           for i in range(400 if quick else 5000)]
+    vc.write_ndjson(work.path("ps.cases"), ops)
+    vc.sh([vh, "pstack", "-in", work.path("ps.cases"), "-out", work.path("ps.trace")])
+    res = vc.tlc(work.dir, "ValidatePStack.tla", "ValidatePStack.cfg", env={"VERIF_TRACE": work.path("ps.trace"), "VERIF_OUT": work.path("ps.verdict")}, timeout=900)
+    rep.add_tlc(res)
+    if not res.ok():
+        raise vc.ToolError("ValidatePStack failed:\n" + vc.tlc_error_text(res))
+    bad = [v for v in vc.read_ndjson(work.path("ps.verdict")) if v["bad"] != 0]
+    rep.count("evaluations", len(ops))
+    rep.count("traces_validated_against_impl", len(ops) - len(bad))
+    rep.cov["pstack_sequences"] = len(ops)
+    for v in bad[:3]:
+        case = next(o for o in ops if o["id"] == v["id"])
+        rep.violation("the real persistent stack diverges from PStack.tla at operation %d of %s" % (v["bad"], case["ops"][:v["bad"]]),
+                      {"family": "pstack", "case": case, "actual": {"first_bad_op": v["bad"]}})
+    sample = r.sample(cases, min(len(cases), 400 if quick else 6000))
+    vmcases = [{"id": i, "src": c["src"], "input": r.choice(c["inputs"])} for i, c in enumerate(sample)]
+
+    def on_verdict(rec, v):
+        if v["v"] == "ok" and v.get("ref") == "mismatch" or v["v"] in ("ref-mismatch", "out-mismatch"):
+            vc.log("VM.tla / JqSem.tla / real disagree on %r (%s): spec-level disagreement, the real-vs-JqSem verdict above decides" % (rec["src"], v["v"]))
+            rep.count("spec_drift")
+
+    _, _, vmc = vmfam.check(rep, work, vh, prelude, vmcases, family="vm", tag="c01vm", on_verdict=on_verdict)
+    rep.cov["vm"] = vmc
+
+
 def run(tier, seed, replay):
     rep = vc.Report(PROP, tier, seed)
     rep.assumptions += ["TLC evaluates JqSem.tla correctly", "the AST is the real parser's (C09 covers the parser)",
@@ -43,7 +84,10 @@ def run(tier, seed, replay):
         d2 = [g for g in gen if g["d"] == 2]
         rep.cov["tlc_enumerated_depth1_programs"] = len(d1)
         if quick:
-            d1 = r.sample(d1, 2500)
+            # all programs whose meaning depends on state surviving an abandoned alternative, a sample of the rest
+            keep = [g for g in d1 if "?//" in g["src"] or "label $m" in g["src"]]
+            rest = [g for g in d1 if g not in keep]
+            d1 = keep + r.sample(rest, max(0, 2500 - len(keep)))
         cases = []
         nin = 2 if quick else 6
         for g in d1 + d2:
@@ -60,6 +104,8 @@ def run(tier, seed, replay):
             c["id"] = i
         counters = evalfam.check_cases(rep, work, vh, prelude, cases, PREDICATES, timeout=900 if quick else 3000)
         rep.cov["verdicts"] = counters
+        # 4. the machine underneath: persistent stacks and the interpreter
+        machine(rep, work, vh, prelude, r, quick, cases)
         rep.cov["rule"] = ("programs: every depth<=1 AST of GenCore.tla (thorough: all, quick: 2500 sampled), seeded depth-2 samples, "
                            "random programs of lib/jqgen.py, cli/test.yaml queries; x inputs from a 30-value universe; "
                            "non-trivial = spec result has an output or an error; distinct by (source, input)")
